@@ -558,6 +558,8 @@ impl<'a> Gen<'a> {
             if !all.is_empty() {
                 let p = self.pick_span(&all);
                 cands.push((if self.prof.name == "collect" { 8 } else { 3 }, c(vec![s("pushc"), s(p), s(ls)])));
+                // the caller hands over its only handle to the set (which is not used again)
+                cands.push((if self.prof.name == "collect" { 4 } else { 1 }, c(vec![s("pushc"), s(p), s(ls), s("last")])));
             }
             cands.push((if self.prof.name == "collect" { 4 } else { 1 }, c(vec![s("torec"), s(ls), format!("{:x}", 0x77u128 + self.rng.below(5) as u128), format!("{:x}", (self.rng.below(3) as u64).wrapping_mul(0x8000_0000_0000_0001))])));
         }
@@ -722,6 +724,10 @@ impl<'a> Gen<'a> {
             }
             "pushc" | "cancel" | "elapsed" | "froms" => {
                 self.mark_busy(t, &[pu(&toks[1])]);
+                if toks[0] == "pushc" && toks.len() > 3 {
+                    let ls = pu(&toks[2]);
+                    self.lsets.retain(|x| *x != ls);
+                }
             }
             "drops" => {
                 self.spans.remove(&pu(&toks[1]));
@@ -899,7 +905,11 @@ impl<'a> Gen<'a> {
         self.do_call(0, vec![s("lccollect"), s(lc), s(ls)]);
         self.do_call(0, vec![s("lexit"), s(a)]);
         if self.rng.chance(1, 2) {
-            self.do_call(0, vec![s("pushc"), s(root), s(ls)]);
+            if self.rng.chance(1, 2) {
+                self.do_call(0, vec![s("pushc"), s(root), s(ls)]);
+            } else {
+                self.do_call(0, vec![s("pushc"), s(root), s(ls), s("last")]);
+            }
         } else {
             self.do_call(0, vec![s("torec"), s(ls), s("77"), s("5")]);
         }
